@@ -700,6 +700,18 @@ class C04(Oracle):
                         {'callback': fc[0], 'site': fc[1], 'fired_for_slot': fc[2],
                          'registered_on_slot': fc[3]}, culprit)
             return
+        cif = st.extra.get('ctor_inner_flags')
+        if cif and st.outcome == 'ok' and isinstance(st.ret, Fxp) and isinstance(st.ret.status, dict):
+            # a handler given with callbacks= wrote into the object while it was being built: what that
+            # write raised (observed right after it) is still up when the constructor returns - nobody
+            # called reset()
+            for f_ in FLAGS:
+                if cif.get(f_) and not st.ret.status.get(f_, False):
+                    w.violation('C04', 'flag-lowered', st,
+                                {'flag': f_, 'what': 'raised by a write made from a handler during construction, '
+                                 'down when the constructor returned; reset() was never called'}, culprit)
+                    return
+            w.bump('c04_write_during_construction_judged')
         bw = st.extra.get('big_write')
         if bw is not None and st.outcome == 'ok':
             for site, n_ in bw['expected'].items():
@@ -890,6 +902,10 @@ class C04(Oracle):
                              'inaccuracy': any(Q.unscale(c, nf) != v for c, v in zip(igl, iil))}
                 except Exception:
                     vals = None
+        if inner is None and st.extra.get('ctor_inner_flags') and sto.target == 'new':
+            # (a handler wrote into the object during its construction: what that write was observed to
+            #  raise is part of what the finished object may carry)
+            inner = {f_: bool(st.extra['ctor_inner_flags'].get(f_)) for f_ in FLAGS}
         if vals is not None and sto.judge_flags:
             try:
                 got = np.asarray(tgt.val)
